@@ -296,6 +296,48 @@ def directed_trees(basis, full, deep=False):
     return out
 
 
+LONG_CHAIN_BASES = [
+    [["x", "a"], ["inv", "square", "cube", "log_abs", "exp"], ["+", "*", "-"]],
+    [["x", "a"], ["inv", "square", "cube", "log_abs", "exp"], ["+", "*"]],
+]
+
+
+def long_chain_trees(basis):
+    """power chains whose combined exponent has two or more digits (12, 16, 18, 27, their negatives), under log_abs / over exp, bare and as
+    left / right argument of + and -: the multiplier that the rewrite pulls out is a multi-digit integer"""
+    un, bi = basis[1], basis[2]
+    chains = [["square", "square", "cube"], ["square", "cube", "cube"], ["square", "square", "square", "square"], ["cube", "cube", "cube"],
+              ["inv", "square", "square", "cube"], ["inv", "cube", "cube", "square"], ["square", "inv", "square", "cube"], ["cube", "square", "square"]]
+    chains = [c for c in chains if all(p in un for p in c)]
+    leaf = ("P",)
+    sites = []
+    for ch in chains:
+        if "log_abs" in un:
+            t = ("X",)
+            for p in reversed(ch):
+                t = (p, t)
+            sites.append(("log_abs", t))
+        if "exp" in un:
+            t = ("exp", ("X",))
+            for p in ch:
+                t = (p, t)
+            sites.append(t)
+    placed = []
+    for st in sites:
+        placed.append(st)
+        for op in bi:
+            if op in ("+", "-"):
+                placed += [(op, st, leaf), (op, leaf, st)]
+    seen, out = set(), []
+    for t in placed:
+        for c in (lambda t: t, lambda t: ("*", t, leaf)):
+            L = tuple(_name_leaves(_flat(c(t))))
+            if L not in seen:
+                seen.add(L)
+                out.append(list(L))
+    return out
+
+
 def jobs_for(ctx):
     rng = esrv.rng(ctx.seed, "C11/inputs")
     quick = ctx.quick
@@ -305,6 +347,8 @@ def jobs_for(ctx):
         trees = directed_trees(b, fullx, deep=not quick)
         for part in shard(trees, 800):      # several jobs so that the driver processes share them
             jobs.append({"basis": b, "trees": part, "directed": True})
+    for b in LONG_CHAIN_BASES:
+        jobs.append({"basis": b, "trees": long_chain_trees(b), "directed": True})
     nship = 5 if quick else 6
     for name, b in SHIPPED.items():
         for n in range(1, nship + 1):
